@@ -110,6 +110,27 @@ fn verif_tx_flow_step() {
     assert!(s1.max_stream_data.as_u64() == pre.m1);
 }
 
+// finishing / resetting a stream silences its flow-control signalling: whatever blocked it
+// (stream window, connection window, or both), no STREAM_DATA_BLOCKED is offered afterwards
+#[cfg_attr(kani, kani::proof)]
+#[cfg_attr(kani, kani::unwind(2))]
+fn verif_tx_flow_finish_after_blocked() {
+    use crate::transmission::interest::Provider as _;
+    let (_conn, mut s0, _s1, _pre) = any_state();
+    let v = vi(M);
+    let w = s0.acquire_flow_control_window(v);
+    let blocked_on_stream = v.as_u64() > s0.max_stream_data.as_u64();
+    // a stream-window block announces itself
+    assert!(s0.has_transmission_interest() == blocked_on_stream);
+    s0.finish();
+    assert!(s0.state() == StreamFlowControllerState::Finished);
+    assert!(!s0.is_blocked());
+    assert!(!s0.has_transmission_interest());
+    kani::cover!(blocked_on_stream && v > s0.acquired_connection_flow_controller_window(), "blocked on both windows before the reset");
+    kani::cover!(blocked_on_stream && w == s0.max_stream_data, "blocked on the stream window only");
+    kani::cover!(!blocked_on_stream, "not stream-blocked");
+}
+
 // three-step history from construction (k-hist), two streams
 #[cfg_attr(kani, kani::proof)]
 #[cfg_attr(kani, kani::unwind(4))]
@@ -169,6 +190,7 @@ fn verif_tx_flow_three_ops() {
 fn verif_replay() {
     kani::replay(&[
         ("verif_tx_flow_step", verif_tx_flow_step),
+        ("verif_tx_flow_finish_after_blocked", verif_tx_flow_finish_after_blocked),
         ("verif_tx_flow_three_ops", verif_tx_flow_three_ops),
     ]);
 }
